@@ -189,8 +189,14 @@ class Interp:
         args = tuple(VALS[i] for i in op['args'])
         kw_items = [(n, VALS[i]) for n, i in op['kwargs']]
         kwargs = dict(kw_items)
+        if op.get('mirror'):
+            # the positional arguments *are* a signature written out as data: f((1,), frozenset({('x', 2)})) is a different
+            # call from f(1, x=2), whatever shape the implementation gives its keys
+            second = frozenset(kwargs.items()) if op['mirror'] == 'frozenset' else tuple(sorted(kwargs.items())) \
+                if op['mirror'] == 'tuple' else tuple(kw_items)
+            args, kw_items, kwargs = (args, second), [], {}
         mk = (args, frozenset(kwargs.items()))
-        spelling = (tuple(op['args']), tuple(map(tuple, op['kwargs'])))
+        spelling = (tuple(op['args']), tuple(map(tuple, op['kwargs'])), op.get('mirror'))
         self.ncalls += 1
         # non-trivial bookkeeping
         for other_mk, other_sp in self.keys_seen:
@@ -259,7 +265,9 @@ def _types(k):
 
 def _near(a, b):
     """Spellings that differ in exactly one keyword value, or in positional-vs-keyword placement."""
-    (pa, ka), (pb, kb) = a, b
+    if a[2] != b[2]:
+        return a[:2] == b[:2]       # a signature and the same signature written out as positional data
+    (pa, ka), (pb, kb) = a[:2], b[:2]
     if pa == pb and len(ka) == len(kb) and sorted(n for n, _ in ka) == sorted(n for n, _ in kb):
         da, db = dict(ka), dict(kb)
         return sum(1 for n in da if da[n] != db[n]) == 1
@@ -293,7 +301,7 @@ def valid(case):
             return False
         for op in case['ops']:
             if op['op'] == 'call':
-                if not all(0 <= i < len(VALS) for i in op['args']):
+                if not all(0 <= i < len(VALS) for i in op['args']) or op.get('mirror') not in (None, 'frozenset', 'tuple', 'pairs'):
                     return False
                 names = [n for n, _ in op['kwargs']]
                 if len(set(names)) != len(names) or not all(n in NAMES and 0 <= i < len(VALS) for n, i in op['kwargs']):
@@ -343,7 +351,12 @@ def machines(tier):
             def call_respelled(self, data):
                 """Re-issue an earlier signature with a different but equal spelling, or a near miss."""
                 args, kwargs = data.draw(st.sampled_from(self.sigs))
-                how = data.draw(st.sampled_from(['permute-kwargs', 'equal-value', 'change-one-kw', 'move-to-kw', 'kw-as-pair', 'same']))
+                how = data.draw(st.sampled_from(['permute-kwargs', 'equal-value', 'change-one-kw', 'move-to-kw', 'kw-as-pair', 'same',
+                                                 'mirror']))
+                if how == 'mirror':
+                    self._do({'op': 'call', 'args': list(args), 'kwargs': [list(x) for x in kwargs],
+                              'mirror': data.draw(st.sampled_from(['frozenset', 'frozenset', 'tuple', 'pairs']))})
+                    return
                 args, kwargs = list(args), [list(x) for x in kwargs]
                 if how == 'permute-kwargs' and len(kwargs) > 1:
                     kwargs = data.draw(st.permutations(kwargs))
@@ -409,6 +422,11 @@ def enumerate_cases(tier):
         kws += [[['x', a], ['y', b]], [['y', b], ['x', a]]]
     sigs = [(p, k) for p in pos for k in kws]
     for cache in ('default', 'dict'):
+        for (p1, k1) in sigs:
+            for m in ('frozenset', 'tuple', 'pairs'):
+                a, b = {'op': 'call', 'args': p1, 'kwargs': k1}, {'op': 'call', 'args': p1, 'kwargs': k1, 'mirror': m}
+                yield {'cache': cache, 'size': 2, 'ops': [a, b, a]}
+                yield {'cache': cache, 'size': 2, 'ops': [b, a, b]}
         for (p1, k1), (p2, k2) in itertools.product(sigs, repeat=2):
             yield {'cache': cache, 'size': 2,
                    'ops': [{'op': 'call', 'args': p1, 'kwargs': k1}, {'op': 'call', 'args': p2, 'kwargs': k2},
